@@ -6,47 +6,57 @@ Open Scope list_scope.
 Open Scope N_scope.
 
 (* The property as stated: for EVERY history the handle returns what the keyed in-memory table returns. *)
-Definition C30_statement (wsem : list wtok -> option (list cond)) (cols : list column) : Prop :=
-  forall h, history_wf cols h = true -> results (run wsem cols h) = results (spec_run cols h).
+Definition C30_statement (wsem : list wtok -> option (list cond)) (osem : list nat -> list row -> list row)
+           (cols : list column) : Prop :=
+  forall h, history_wf cols h = true -> results (run wsem osem cols h) = results (spec_run cols h).
 
-(* For every schema, every reading [wsem] of the generated where clause that parses "where c (and c)*" as
-   the conjunction of its conditions (and the empty clause as no condition), and every history of
-   create / create-if / insert / read / update / delete with equality and comparison filters - including
-   nil filters and filters on unknown columns - the handle (tree with fix 1e0c750d) returns exactly the
-   results of the keyed in-memory table.  history_wf only says that written rows have one value per column. *)
+(* For every schema in which a column is found again by its own field name and by its SQL name (schema_ok),
+   every reading [wsem] of the generated where clause that parses "where c (and c)*" as the conjunction of its
+   conditions (and the empty clause as no condition), every [osem] that orders by the listed columns ascending
+   with ties in table order, and every history of create / create-if / insert / read / update / delete with
+   equality and comparison filters - including nil filters and filters on unknown columns - plus SetPrimaryKey,
+   Sort, ReadOne, UpdateOne, DeleteOne and close-and-reopen of the handle, the handle (tree with fix 1e0c750d)
+   returns exactly the results of the keyed in-memory table: reads are the filtered rows in the requested order,
+   the keyed operations act on the column the handle has flagged as its key (none after a reopen until Create
+   or SetPrimaryKey) and fail when there is none.  history_wf: written rows have one value per column. *)
 Theorem C30_refines_table :
-  forall (wsem : list wtok -> option (list cond)) (cols : list column),
+  forall (wsem : list wtok -> option (list cond)) (osem : list nat -> list row -> list row) (cols : list column),
     wsem [] = Some [] ->
     (forall ci o k r cs, chain r = Some cs -> wsem (TWhere :: TCond ci o k :: r) = Some ((ci, o, k) :: cs)) ->
-    forall h, history_wf cols h = true -> results (run wsem cols h) = results (spec_run cols h).
+    (forall ord l, osem ord l = sort_rows ord l) ->
+    forall h, schema_ok cols = true -> history_wf cols h = true ->
+      results (run wsem osem cols h) = results (spec_run cols h).
 Proof. exact refines_table. Qed.
 
-(* ... and leaves the same table behind *)
+(* ... and leaves the same table and handle state behind *)
 Theorem C30_refines_table_state :
-  forall (wsem : list wtok -> option (list cond)) (cols : list column),
+  forall (wsem : list wtok -> option (list cond)) (osem : list nat -> list row -> list row) (cols : list column),
     wsem [] = Some [] ->
     (forall ci o k r cs, chain r = Some cs -> wsem (TWhere :: TCond ci o k :: r) = Some ((ci, o, k) :: cs)) ->
-    forall h, history_wf cols h = true -> run wsem cols h = spec_run cols h.
+    (forall ord l, osem ord l = sort_rows ord l) ->
+    forall h, schema_ok cols = true -> history_wf cols h = true -> run wsem osem cols h = spec_run cols h.
 Proof. exact refines_table_state. Qed.
 
 (* The pinned code (value-receiver constructors returning nil for an unknown column; where/and chosen by
    argument position) is refuted, each defect with its own replayable witness. *)
 Theorem C30_old_refuted_badcol :
   exists h, history_wf demo_cols h = true /\
-            results (run_old wsem_ref demo_cols h) <> results (spec_run demo_cols h).
+            results (run_old wsem_ref osem_ref demo_cols h) <> results (spec_run demo_cols h).
 Proof. exists witness_badcol. exact old_refuted_badcol. Qed.
 
 Theorem C30_old_refuted_nilfirst :
   exists h, history_wf demo_cols h = true /\ forallb (op_valid demo_cols) h = true /\
-            results (run_old wsem_ref demo_cols h) <> results (spec_run demo_cols h).
+            results (run_old wsem_ref osem_ref demo_cols h) <> results (spec_run demo_cols h).
 Proof. exists witness_nilfirst. exact old_refuted_nilfirst. Qed.
 
 (* non-vacuity: the reference reading satisfies both hypotheses, and a concrete history with a nil filter,
    an unknown column, a key collision and a two-filter update has non-trivial results *)
 Example C30_hypotheses_satisfiable :
   wsem_ref [] = Some [] /\
-  (forall ci o k r cs, chain r = Some cs -> wsem_ref (TWhere :: TCond ci o k :: r) = Some ((ci, o, k) :: cs)).
-Proof. split; [exact wsem_ref_empty | exact wsem_ref_where]. Qed.
+  (forall ci o k r cs, chain r = Some cs -> wsem_ref (TWhere :: TCond ci o k :: r) = Some ((ci, o, k) :: cs)) /\
+  (forall ord l, osem_ref ord l = sort_rows ord l) /\
+  schema_ok demo_cols = true.
+Proof. split; [exact wsem_ref_empty|]. split; [exact wsem_ref_where|]. split; [reflexivity|vm_compute; reflexivity]. Qed.
 
 Example C30_nonvacuous :
   let h := [OCreateIf; OInsert rec1; OInsert rec2; OInsert rec1;
@@ -55,7 +65,22 @@ Example C30_nonvacuous :
             ODelete [FBy (L "Nmae") OpEq (VS (L "Tom"))];
             ORead []] in
   history_wf demo_cols h = true /\
-  results (run wsem_ref demo_cols h) =
+  results (run wsem_ref osem_ref demo_cols h) =
     [ROk; ROk; ROk; RErr; RRows [rec1];
      ROk; RErr; RRows [rec1; [VS u2; VS (L "Zed"); VI 1; VB true; VS (L "[]"); VS (L "{}")]]].
+Proof. vm_compute. split; reflexivity. Qed.
+
+(* the extended operation set on a concrete history: ordered read, keyed read / update / delete, and the
+   handle of a reopened database, which has no key column flagged until SetPrimaryKey (or Create) *)
+Example C30_nonvacuous_keyed :
+  let rec3 := [VS (L "33333333-3333-3333-3333-333333333333"); VS (L "Ann"); VI 63; VB false; VS (L "[]"); VS (L "{}")] in
+  let rec1' := [VS u1; VS (L "Tommy"); VI 1; VB true; VS (L "[]"); VS (L "{}")] in
+  let h := [OCreateIf; OInsert rec1; OInsert rec2; OInsert rec3;
+            OSort [L "AGE"; L "name"]; ORead [FBy (L "age") OpGt (VI 0)];
+            OReadOne (VS u2); OUpdateOne rec1'; ODeleteOne (VS u2); ODeleteOne (VS u2);
+            OReopen; OReadOne (VS u1); OSetKey (L "Name"); OReadOne (VS (L "Tommy")); ORead []] in
+  history_wf demo_cols h = true /\
+  results (run wsem_ref osem_ref demo_cols h) =
+    [ROk; ROk; ROk; ROk; ROk; RRows [rec2; rec3; rec1]; RRows [rec2]; ROk; ROk; RErr;
+     ROk; RErr; ROk; RRows [rec1']; RRows [rec1'; rec3]].
 Proof. vm_compute. split; reflexivity. Qed.
